@@ -82,6 +82,40 @@ def max_candidates(mt):
     return mx
 
 
+def no_revisit_evidence(p_mt, u_mt, tol=1e-9):
+    """Fault localisation for 'a pruned run found a better path than the unpruned run' with non-emitting states: walk the pruned
+    run's best path and look for a step P -> X out of a NON-EMITTING state P such that the unpruned lattice holds P at least
+    as probable but with ANOTHER best predecessor, holds X less probable (or not at all), and the search's own visited-node
+    rule (_node_in_prev_ne, which walks the best-predecessor chain) forbids the move P -> X in the unpruned lattice.
+    Then the per-state maximum kept by the column update was not a sufficient statistic: a path-dependent constraint."""
+    lb = p_mt.lattice_best or []
+
+    def entry(mt, x):
+        col = (mt.lattice or {}).get(x.obs)
+        if col is None or x.obs_ne >= len(col.o):
+            return None
+        return col.o[x.obs_ne].get(x.key)
+    for P, X in zip(lb, lb[1:]):
+        if P.obs_ne == 0:
+            continue
+        Pu, Xu = entry(u_mt, P), entry(u_mt, X)
+        if Pu is None or Pu.stop:
+            continue
+        if not (Pu.logprob >= P.logprob - tol * max(1.0, abs(P.logprob))):
+            continue
+        if {q.key for q in Pu.prev} == {q.key for q in P.prev}:
+            continue
+        if Xu is not None and not Xu.stop and Xu.logprob >= X.logprob - tol * max(1.0, abs(X.logprob)):
+            continue
+        try:
+            forbidden = u_mt._node_in_prev_ne(Pu, X.edge_m.l2 if X.edge_m.l2 is not None else X.edge_m.l1)
+        except Exception:
+            forbidden = False
+        if forbidden:
+            return f"step {P.key} -> {X.key}: unpruned holds {P.key} at {Pu.logprob!r} (pruned {P.logprob!r}) with predecessor {[q.key for q in Pu.prev]} instead of {[q.key for q in P.prev]}; its chain has visited the end node of {X.key}, so the move is not made"
+    return None
+
+
 def check_case(ctx, case):
     if case.get("large"):
         ctx.count("large_map_cases")
@@ -128,10 +162,12 @@ def check_case(ctx, case):
         ctx.violation(f"C07:window:{kind}:{where[0]}", case, f"at {where}: {text}")
     # (2) pruned vs unpruned siblings, full trace
     res = {}
+    sib = {}
     for name, w in (("pruned", cfg["width"]), ("unpruned", None)):
         c2 = dict(cfg)
         c2["width"] = w
         m2 = build.make_matcher(build.make_inmem(case["map"]), c2)
+        sib[name] = m2
         try:
             r = m2.match(tr)
             res[name] = summary(m2, r, len(tr))
@@ -163,10 +199,18 @@ def check_case(ctx, case):
             mode = "heuristic:second-order-penalties"
         else:
             mode = "exhaustive-configuration:" + cfg["family"] + (":non-emitting" if cfg["non_emitting"] else "")
+        ev = ""
+        if mode.startswith("exhaustive-configuration") and cfg["non_emitting"] and \
+                (pidx > uidx or (p["complete"] and u["complete"] and not close_leq(p["best"], u["best"]))):
+            # one more way in which the unpruned search is not exhaustive, recognised from evidence in the two lattices only
+            why = no_revisit_evidence(sib["pruned"], sib["unpruned"])
+            if why:
+                mode = "heuristic:nonemitting-no-revisit-rule"
+                ev = " | " + why
         if pidx > uidx:
-            ctx.violation(f"C07:pruned-run-matched-more-than-unpruned:{mode}", case, f"W={cfg['width']}: pruned idx {pidx}, unpruned idx {uidx}")
+            ctx.violation(f"C07:pruned-run-matched-more-than-unpruned:{mode}", case, f"W={cfg['width']}: pruned idx {pidx}, unpruned idx {uidx}{ev}")
         elif p["complete"] and u["complete"] and not close_leq(p["best"], u["best"]):
-            ctx.violation(f"C07:pruned-run-more-probable-than-unpruned:{mode}", case, f"W={cfg['width']}: pruned {p['best']!r} > unpruned {u['best']!r}")
+            ctx.violation(f"C07:pruned-run-more-probable-than-unpruned:{mode}", case, f"W={cfg['width']}: pruned {p['best']!r} > unpruned {u['best']!r}{ev}")
         changed = (pidx != uidx) or (p["complete"] and u["complete"] and not oracles.close(p["best"], u["best"]))
         if changed:
             ctx.count("pruning_changed_result")
